@@ -27,7 +27,10 @@ RULE = ('case = one suggestion returned by ProofState.search_method for (proof s
         'recorded selection), plus generated states built from hint theorems of logic/nat/set/list/real (goal = instance of the '
         'conclusion / of the rewritten side, facts = permuted subsets of the premises with distractors, quantified copies of the '
         'theorem as facts, exists/forall goals and facts, non-linear instances), each continued for up to 2 further steps from the '
-        'result of a successful suggestion (generated editing sequences, previous fact selection re-used); distinct = hash of (state, goal, facts, method, theorem, sym, parameters); '
+        'result of a successful suggestion (generated editing sequences, previous fact selection re-used), plus a directed family in '
+        'theory hoare: goals Valid P c Q / Sem c s t over generated concrete commands (Skip/Assign/Seq/Cond/While), stated without and '
+        'under 1-2 assumptions (unrelated equations, Valid/Entail facts, the goal itself), directly, after an introduction step and as '
+        'conjuncts split by conjI, searched with no fact and with every single / some pairs of the assumption lines; distinct = hash of (state, goal, facts, method, theorem, sym, parameters); '
         'non-trivial = the suggestion was applied and judged')
 ASSUMPTIONS = ['front-end protocol read from app/src/components/proof/ProofArea.vue: sig parameters missing from the suggestion are '
                'queried before /api/apply-method is called; a query answer is merged into the step and the call repeated',
@@ -38,24 +41,31 @@ ASSUMPTIONS = ['front-end protocol read from app/src/components/proof/ProofArea.
 REQUIRED = {'quick': {'searches': 900, 'suggestions_applied': 2600, 'applied_ok': 2500, 'goal_adverts_checked': 1000,
                       'fact_adverts_checked': 800, 'solving_adverts_checked': 110, 'asked_for_parameters': 450,
                       'gen_states': 200, 'gen_followup_states': 60, 'lib_states': 150, 'searches_with_2_facts': 130,
-                      'advertised_goal_closed_by_existing_line': 60, 'ok:induction': 400, 'ok:apply_backward_step': 350},
+                      'advertised_goal_closed_by_existing_line': 60, 'ok:induction': 400, 'ok:apply_backward_step': 350,
+                      'hoare_states': 24, 'hoare_goals_under_assumptions': 14, 'hoare_goals_without_assumptions': 3,
+                      'hoare_searches_with_facts': 10, 'hoare_derived_states': 4, 'ok:vcg': 2},
             'thorough': {'searches': 12000, 'suggestions_applied': 40000, 'applied_ok': 30000, 'goal_adverts_checked': 15000,
                          'fact_adverts_checked': 8000, 'solving_adverts_checked': 1500, 'asked_for_parameters': 3000,
                          'gen_states': 2500, 'gen_followup_states': 1000, 'lib_states': 2500, 'searches_with_2_facts': 1500,
-                         'advertised_goal_closed_by_existing_line': 600, 'ok:induction': 1500, 'ok:apply_backward_step': 3000}}
+                         'advertised_goal_closed_by_existing_line': 600, 'ok:induction': 1500, 'ok:apply_backward_step': 3000,
+                         'hoare_states': 120, 'hoare_goals_under_assumptions': 70, 'hoare_goals_without_assumptions': 20,
+                         'hoare_searches_with_facts': 50, 'hoare_derived_states': 20, 'ok:vcg': 20}}
 SHARD_TIMEOUT = {'quick': 900, 'thorough': 7200}
 
 GEN_THEORIES = ['logic', 'nat', 'set', 'list', 'real', 'function']
 TERM_PARAMS = ('s',)
+HOARE_METHODS = ('vcg', 'eval_Sem')
 
 
 def shards(tier, seed):
     if tier == 'quick':
         return ([{'kind': 'lib', 'i': i, 'parts': 12, 'units': 14, 'searches': 200, 'per_thm': 8} for i in range(12)] +
                 [{'kind': 'gen', 'i': i, 'theories': ths, 'states': 56} for i, ths in
-                 enumerate([['logic', 'nat'], ['set', 'list'], ['logic', 'function', 'set'], ['nat', 'real']])])   # + follow-up states
+                 enumerate([['logic', 'nat'], ['set', 'list'], ['logic', 'function', 'set'], ['nat', 'real']])] +   # + follow-up states
+                [{'kind': 'hoare', 'i': 0, 'states': 36}])
     return ([{'kind': 'lib', 'i': i, 'parts': 32, 'units': 150, 'searches': 2500, 'per_thm': 24} for i in range(32)] +
-            [{'kind': 'gen', 'i': i, 'theories': [GEN_THEORIES[i % len(GEN_THEORIES)]], 'states': 350} for i in range(12)])
+            [{'kind': 'gen', 'i': i, 'theories': [GEN_THEORIES[i % len(GEN_THEORIES)]], 'states': 350} for i in range(12)] +
+            [{'kind': 'hoare', 'i': i, 'states': 150} for i in range(2)])
 
 
 # ------------------------------------------------------------------ shadows of sequents, state walking
@@ -292,7 +302,7 @@ def judge(ctx, state, gid, r, wit, forced=None):
             report_failure(ctx, mname, res, False, r, {}, dict(wit, frontend_step=True), ' (step as forwarded by the front end: sig keys only)')
 
 
-def report_failure(ctx, mname, exc, invented, r, supplied, wit, extra=''):
+def report_failure(ctx, mname, exc, invented, r, supplied, wit, extra='', gitem=None):
     en = type(exc).__name__
     if invented:
         ctx.count('invented_term_application_failed:%s:%s' % (mname, en))
@@ -303,7 +313,19 @@ def report_failure(ctx, mname, exc, invented, r, supplied, wit, extra=''):
         return
     ctx.count('applied_failed_outright')
     w = dict(wit, suggestion=sugg_key(r), supplied=supplied, exception=en, message=str(exc)[:300])
-    ctx.violation('%s:fails-outright:%s' % (mname, en),
+    mech = '%s:fails-outright:%s' % (mname, en)
+    if mname in HOARE_METHODS and gitem is not None and gitem.th is not None:
+        # the program-logic methods work on the bare statement: name what the suggestion overlooked (read off the state,
+        # so a replay gets the same key)
+        feats = []
+        if len(gitem.th.hyps) > 0:
+            feats.append('goal-under-assumptions')
+        if r.get('fact_ids'):
+            feats.append('with-selected-facts')
+        if feats:
+            mech = '%s:suggested-for-%s-but-not-applicable:%s' % (mname, '-'.join(feats), en)
+            extra += ' (goal line carries %d hypotheses, %d facts selected)' % (len(gitem.th.hyps), len(r.get('fact_ids') or []))
+    ctx.violation(mech,
                   'suggestion %s at %s fails outright with %s: %s%s' % (json.dumps(sugg_key(r), default=str), wit.get('where'), en,
                                                                        str(exc)[:200], extra), w)
 
@@ -347,7 +369,7 @@ def judge_application(ctx, state, gid, r, supplied, invented, wit):
     ctx.count('suggestions_applied')
     key = (wit.get('state_key'), gid, tuple(r.get('fact_ids', ())), mname, r.get('theorem'), r.get('sym'), tuple(sorted(supplied.items())))
     if out == 'fail':
-        report_failure(ctx, mname, res, invented, r, supplied, wit)
+        report_failure(ctx, mname, res, invented, r, supplied, wit, gitem=gitem)
         ctx.case(key, nontrivial=True)
         return
     st = res
@@ -848,6 +870,145 @@ def explore_gen_state(ctx, state, wit, nfacts, rng, follow=2):
     Stats.ok_states = None
 
 
+# ------------------------------------------------------------------ directed family: program-logic goals under assumptions
+HOARE_VARS = {'P': '(nat => nat) => bool', 'Q': '(nat => nat) => bool', 'A': 'nat', 'B': 'nat'}
+_ST = '%s::nat=>nat. '
+
+
+def hoare_cmd(rng, depth, loops=True):
+    """text of a CONCRETE command over states nat => nat (constructors only: the generators of conditions recurse on them)"""
+    exprs = ['(1::nat)', '(2::nat)', 's 0 + 1', 's 1', 's 0 + s 1', 's 1 * 2']
+    conds = ['s 0 = 0', '~(s 0 = 3)', 's 0 = s 1', '~(s 1 = 0)']
+    invs = ['true', 's 0 = s 1', '~(s 1 = 7)']
+
+    def assign():
+        return 'Assign (%d::nat) (%s%s)' % (rng.randint(0, 2), _ST, rng.choice(exprs))
+    if depth <= 0:
+        return rng.choice(['(Skip::(nat=>nat) com)', assign(), assign()])
+    k = rng.choice(['seq', 'seq', 'cond', 'while' if loops else 'seq', 'atom'])
+    if k == 'atom':
+        return hoare_cmd(rng, 0)
+    if k == 'seq':
+        return 'Seq (%s) (%s)' % (hoare_cmd(rng, depth - 1, loops), hoare_cmd(rng, depth - 1, loops))
+    if k == 'cond':
+        return 'Cond (%s%s) (%s) (%s)' % (_ST, rng.choice(conds), hoare_cmd(rng, depth - 1, loops), hoare_cmd(rng, depth - 1, loops))
+    return 'While (%s%s) (%s%s) (%s)' % (_ST, rng.choice(conds), _ST, rng.choice(invs), hoare_cmd(rng, depth - 1, False))
+
+
+def hoare_valid(rng, depth=None):
+    pre = rng.choice(['P', 'P', '%strue' % _ST, '%ss 0 = 0' % _ST])
+    post = rng.choice(['Q', 'Q', '%ss 1 = 2' % _ST, '%s~(s 0 = s 1)' % _ST])
+    return 'Valid (%s) (%s) (%s)' % (pre, hoare_cmd(rng, rng.randint(0, 2) if depth is None else depth), post)
+
+
+def hoare_sem(rng):
+    """(command, initial state, final state) of a Sem goal; the final state is the computed one or, sometimes, the initial one
+    (then whatever is suggested must still apply)"""
+    from imperative import imp
+    from syntax import parser
+    c = parser.parse_term(hoare_cmd(rng, rng.randint(0, 2), loops=False))
+    st = parser.parse_term('%%x::nat. (%d::nat)' % rng.randint(0, 1))
+    if rng.random() < 0.8:
+        end = imp.eval_Sem(c, st).prop.arg       # input construction only: the judge never looks at it
+    else:
+        end = st
+    return c, st, end
+
+
+def gen_hoare_state(rng, idx):
+    """-> (goal kind, assumption shape, statement form, assumption terms, goal term); needs the context of theory hoare"""
+    from syntax import parser
+    kind = rng.choice(['valid'] * 4 + ['sem'])
+    if kind == 'valid':
+        goal = parser.parse_term(hoare_valid(rng))
+    else:
+        c, st, end = hoare_sem(rng)
+        Sem = parser.parse_term('Sem (Skip::(nat=>nat) com) (%x::nat. (0::nat)) (%x::nat. (0::nat))').head
+        goal = Sem(c, st, end)
+    shapes = ['none', 'eq', 'valid', 'none', 'eq2', 'entail', 'same', 'eq+valid']
+    assume = shapes[idx % len(shapes)]        # round robin: every shape is present whatever the seed
+    texts = {'none': [], 'eq': ['A = B'], 'eq2': ['A = B', 'B = A'], 'valid': [hoare_valid(rng, 0)], 'entail': ['Entail P Q'],
+             'eq+valid': ['A = B', hoare_valid(rng, 0)]}
+    As = [goal] if assume == 'same' else [parser.parse_term(t) for t in texts[assume]]
+    form = rng.choice(['direct', 'direct', 'intro', 'conj']) if As or rng.random() < 0.5 else 'direct'
+    return kind, assume, form, As, goal
+
+
+def run_hoare(ctx, spec):
+    """Goals of the program logic (theory hoare: methods vcg / eval_Sem are registered by imperative.imp) standing under
+    assumptions.  The states are judged by the ordinary judge: every suggestion must apply or ask."""
+    from logic import basic, context
+    from server import server, method
+    from syntax import parser
+    from kernel import theory
+    from kernel.term import Implies, And, Forall, Var, Eq
+    from kernel.type import TConst
+    libreplay.prepare()
+    rng = ctx.rng
+    basic.load_theory('hoare')
+    seen = set()
+    made = tries = 0
+    while made < spec['states'] and tries < spec['states'] * 5:
+        tries += 1
+        try:
+            context.set_context(None, vars=dict(HOARE_VARS))
+            kind, assume, form, As, goal = gen_hoare_state(rng, made)
+            path = []
+            if form == 'direct':
+                prop = Implies(*(As + [goal]))
+            elif form == 'intro':
+                # !n. n = A --> As --> goal : the goal gets its assumptions from an introduction step
+                n = Var('n', TConst('nat'))
+                prop = Forall(n, Implies(*([Eq(n, Var('A', TConst('nat')))] + As + [goal])))
+                path = [{'method_name': 'introduction', 'goal_id': '0', 'fact_ids': [], 'names': 'n'}]
+            else:
+                # As --> goal & goal2 : split by conjI, both conjuncts stand under the assumptions
+                goal2 = parser.parse_term(hoare_valid(rng, rng.randint(0, 1)))
+                prop = Implies(*(As + [And(goal, goal2)]))
+                path = [{'method_name': 'apply_backward_step', 'goal_id': str(len(As)), 'fact_ids': [], 'theorem': 'conjI'}]
+            sprop = S.tm_shadow(prop)
+            skey = S.alpha(sprop)
+            if skey in seen:
+                continue
+            seen.add(skey)
+            state = server.parse_init_state(prop)
+            vars = dict(context.ctxt.vars)
+            for stp in path:
+                method.apply_method(state, dict(stp))
+        except Exception as e:
+            ctx.count('hoare_build_error:' + type(e).__name__)
+            if ctx.counters['hoare_build_error:' + type(e).__name__] <= 2:
+                ctx.note('hoare family: could not build a state: %s %s' % (type(e).__name__, str(e)[:160]))
+            continue
+        made += 1
+        ctx.count('hoare_states')
+        ctx.count('hoare_shape:%s/%s/%s' % (kind, assume, form))
+        if path:
+            ctx.count('hoare_derived_states')
+        desc = 'hoare:%s/%s/%s' % (kind, assume, form)
+        wit = {'kind': 'gen', 'theory': 'hoare', 'desc': desc, 'family': 'hoare',
+               'where': 'generated state in hoare (%s): %s' % (desc, safe_str(prop)) + ''.join(
+                   ' then %s %s on %s' % (p['method_name'], p.get('theorem', ''), p['goal_id']) for p in path),
+               'vars': {k: S.jsonable(S.ty_shadow(T)) for k, T in vars.items()}, 'prop': S.jsonable(sprop), 'path': path,
+               'state_key': ('hoare', skey, len(path))}
+        # every open goal, no fact / every single visible line / some pairs (both orders are drawn at random)
+        for git in [it for it in all_items(state.prf) if it.rule == 'sorry' and it.th is not None]:
+            gid = git.id.id
+            if len(git.th.hyps) > 0:
+                ctx.count('hoare_goals_under_assumptions')
+            else:
+                ctx.count('hoare_goals_without_assumptions')
+            ids = [str(it.id) for it in visible_items(state, gid) if it.th is not None]
+            sels = [[]] + [[i] for i in ids[-3:]]
+            pairs = [[a, b] for a in ids[-3:] for b in ids[-3:] if a != b]
+            rng.shuffle(pairs)
+            sels += pairs[:1]
+            for prevs in sels:
+                if prevs:
+                    ctx.count('hoare_searches_with_facts')
+                search_and_judge(ctx, state, gid, prevs, wit)
+
+
 # ------------------------------------------------------------------ entry
 def run_replay(ctx, w):
     from logic import basic, context
@@ -882,5 +1043,7 @@ def run_shard(ctx, spec):
         return
     if spec['kind'] == 'lib':
         run_lib(ctx, spec)
+    elif spec['kind'] == 'hoare':
+        run_hoare(ctx, spec)
     else:
         run_gen(ctx, spec)
